@@ -362,6 +362,11 @@ class C06(Prop):
             f = Failure(what="length of Path(shape.d()) %r vs abs(Path(shape)) %r" % (obs["len"][1], obs["len"][0]), case=case)
             if round_nonorth:
                 f["finding"] = FINDING
+            elif curved and obs.get("path_d") is not None and obs.get("path_d_pred6") is not None and \
+                    self._cmp(obs["path_d"], obs["path_d_pred6"], 2e-5 * scale) is None and \
+                    self._cmp(obs["path_d"], spec_t, 2e-5 * scale) is not None:
+                # the re-read outline is the one the 6-digit radii denote, and that is not the shape's: its length follows
+                f["finding"] = FINDING_G
             fs.append(f)
         if not sd and (obs["own"] or obs["seg_t"] or obs["path_abs"]):
             fs.append(Failure(what="degenerate shape produced segments", case=case, observed=obs["own"]))
